@@ -239,6 +239,7 @@ type Env struct {
 	evDigest   []byte
 	lastErr    string
 	evm        *evmSide // the compiled contract side of the closed loop (evmloop profile)
+	mx         *mxSide  // connectors + scripted Minter node (mloop profile, binary built with -tags mloop)
 }
 
 func makeCodec() codec.Codec {
